@@ -835,7 +835,7 @@ registry! {
     BTreeMap<Int, Int>; BTreeMap<&'static str, &'static ByteSlice>; BTreeMap<String, BTreeSet<u8>>;
     // tagged
     Tagged<0, String>; Tagged<5, u8>; Tagged<23, Vec<u8>>; Tagged<24, bool>; Tagged<1000, Option<u8>>; Tagged<4294967296, (u8, u8)>;
-    Tagged<18446744073709551615, u8>; Tagged<55799, u32>; Option<Tagged<55799, String>>; Tagged<55799, Tagged<55799, Vec<u8>>>; (Tag, u8); Tagged<5, Tagged<6, u16>>; Tagged<65536, &'static CStr>;
+    Tagged<18446744073709551615, u8>; Tagged<55799, u32>; Option<Tagged<55799, String>>; Tagged<55799, Tagged<55799, Vec<u8>>>; (Tag, u8); Tagged<5, Tagged<6, u16>>; Tagged<65536, &'static CStr>; Tagged<7, Tagged<7, u8>>; Tagged<7, Option<Tagged<7, u8>>>; Tagged<24, Tag>; Tagged<32, (Tag, Tag)>; Tagged<1, Box<Tagged<1, String>>>; Tagged<6, Tagged<5, Tagged<6, bool>>>;
     // ranges, bounds
     Range<i64>; Range<u8>; Range<Option<u8>>; RangeFrom<u32>; RangeTo<i16>; RangeToInclusive<u64>; RangeInclusive<i8>; RangeInclusive<String>;
     Bound<u32>; Bound<String>; Bound<()>; Bound<Option<u8>>;
